@@ -649,7 +649,13 @@ func (p *parser) parseCallExpression(function ast.Expression) ast.Expression {
 		Function:  function,
 	}
 
-	ss := strings.Split(function.String(), ".")
+	// a dotted name in function position is a method call on a path; any other
+	// expression that happens to print with a dot in it (fs[p.I], m["a.b"],
+	// curry(1.5)) is called as it stands
+	ss := []string{function.String()}
+	if _, ok := function.(*ast.Identifier); ok {
+		ss = strings.Split(function.String(), ".")
+	}
 
 	if len(ss) > 1 {
 		exp.Callee = &ast.Identifier{
